@@ -11,7 +11,9 @@ from common import hexs
 ASSUMPTIONS = [
     "the specification is coq/Json/JsonSpec.v (RFC 8259 / RFC 3629 / RFC 2781 / ISO 32000 Annex D.2); on every run it is cross-checked against Python's strict json and codecs on mutated texts (part spec-vs-python)",
     "the model has the pinned behaviour (suffix _pinned) and the behaviour after proposed_fixes/*.diff; the implementation must equal one of them on every case; where they differ the pinned one violates the property and is reported under the known findings D1, D7, D8, D9",
-    "document-level JSON (QPDF::writeJSON, QPDFJob::doJSON, streams, base64, side files) is not modelled: it is judged by the extracted json_valid + Python's strict json + comparison with the generator's ground truth and round trips through the real CLI",
+    "document-level JSON emission (QPDF::writeJSON, QPDFJob::doJSON, streams, base64, side files) is not modelled: it is judged by the extracted json_valid + Python's strict json + comparison with the generator's ground truth and round trips through the real CLI",
+    "document-level import (QPDF::JSONReactor) is modelled over the PARSED tree (coq/Json/JsonReactor.v); qpdf's JSON parser is tied by feeding the model with the tree Python's strict json parses from the same text; numbers with an exponent, pushedinheritedpageresources / calledgetallpages = true in update mode and a stream \"data\" string spelled with escapes are outside the model (the last one is decided on the implementation alone: known finding C14-F2)",
+    "the member-order theorems (jr_import_member_order ...) are about the reactor after proposed_fixes/C14-F3_json_stream_length_ignored.diff and C14-F4_json_value_own_reference.diff; the model also has the behaviour of the tree as it is, the implementation must equal one of the two on every text; where they differ the tree as it is violates the property (known findings C14-F3, C14-F4)",
     "JSON texts above 150 kB are judged by Python's strict json only (the extracted list-based recogniser is slow on them)",
     "schema conformance is checked structurally against the layout printed by --json-help (key sets and value kinds), not by a general JSON-schema engine",
 ]
@@ -826,7 +828,11 @@ def run(chk):
                        "levels x object subsets x keys, --json-input / --update-from-json round trips; a stream-layer document (empty / 1-byte data, filters with "
                        "parameters, chains with parameter arrays, indirect /Filter and /DecodeParms, undecodable filters) under every stream-data mode x decode level with "
                        "the whole stream dictionary compared with the document's own; a document with non-zero generations under lists of several --json-object in every "
-                       "spelling (n | n,g | trailer) judged by 'exactly the requested subset' and by edits reaching each selected object. non-trivial = the emission changes the payload (escape, "
+                       "spelling (n | n,g | trailer) judged by 'exactly the requested subset' and by edits reaching each selected object. Import side: hand-built complete qpdf JSON "
+                       "documents, updates of them and malformed texts through createFromJSON / updateFromJSON in-process against the extracted reactor model, each with variants that "
+                       "differ only in member order (dict before data/datafile, shuffled, reversed, sorted at every depth), white space, \\u / surrogate-pair / \\/ escapes in keys and strings, "
+                       "and the spelling of reals - every variant must give the document its base text gives; the same variants of qpdf's own exports (inline and file data, decode "
+                       "level none and generalized) through --json-input and --update-from-json (own JSON and edited subsets) on the CLI. non-trivial = the emission changes the payload (escape, "
                        "prefix, normalisation) or a document-level run completed; distinct by input")
     part_spec_vs_python(cx)
     part_reals(cx)
@@ -834,6 +840,8 @@ def run(chk):
     part_names(cx)
     part_trees(cx)
     part_utils(cx)
+    import c14_import
+    c14_import.part_import_reactor(cx)
     try:
         import c14_cli
         c14_cli.run_cli(cx)
@@ -856,6 +864,7 @@ def replay(chk, rep):
     CLI cases through the real binary (the generated input is carried in the replay file)"""
     shown = dict(rep)
     shown.pop("input_pdf_base64", None)
+    shown.pop("input_json_base64", None)
     print(json.dumps(shown, indent=1)[:6000])
     case = rep.get("case", {})
     drv = os.path.join(common.DRV, "drv")
@@ -863,6 +872,11 @@ def replay(chk, rep):
     line = None
     if not isinstance(case, dict):
         return 0
+    if "json_texts_hex" in case or "variant_json" in case:
+        import c14_import
+        r = c14_import.replay(chk, rep)
+        if r is not None:
+            return r
     if "real" in case:
         line = "jreal " + hexs(case["real"].encode("latin-1"))
     elif "string_bytes" in case:
